@@ -1,5 +1,6 @@
 // C02 — PCA components are the principal axes of the data (spectral correctness, equivariance).
 #include "modelgen.hpp"
+#include <set>
 using namespace vf;
 using namespace orc;
 
@@ -85,6 +86,12 @@ static void pred_c02(const Case &c) {
     judged++;
   }
   tag(fmt("judged-at-runtime=%d", std::min(judged, 4)));
+  // NIPALS plateau (known finding pca-nipals-plateau-order, see modelgen.hpp): the judged components are principal axes, but not in order
+  {
+    bool allaxes = true, inorder = true; std::set<int> used;
+    for (int k = 0; k < judged; k++) { int j = matched_axis(Vv, f.P, k); if (j < 0 || used.count(j)) { allaxes = false; break; } used.insert(j); if (j != k) inorder = false; }
+    if (allaxes && !inorder) fail_known("pca-nipals-plateau-order", fmt("the first %d components are principal axes of the cross-product matrix but not in the order of their eigenvalues (n=%d p=%d scaling=%d)", judged, n, p, scaling));
+  }
   for (int k = 0; k < judged; k++) {
     ld ref = 100 * lam[k] / trace;
     VF_CHECK(fabsl(f.ve[k] - ref) <= ref * (10 * t3 + 2 * bounds[k] * bounds[k] + 1e-9L) + 1e-12L,
